@@ -44,7 +44,8 @@ CLAIMED = {
         text="For every subset of an n<=2/3 list being unresolvable/duplicate: TLC computes the allowed (status, warnings, effect) "
              "combinations; the recorded warnings, the set of elements present and whether each listed element moved must match one. Containers that "
              "hold an ID twice (layout `dup`) are enumerated for the delete classes and judged by the count-based clause `acted_upon` "
-             "(the k-th mention of an ID removes one such element while one is left, else exactly one warning).",
+             "(the k-th mention of an ID removes one such element while one is left, else exactly one warning); a foreign exception "
+             "where every allowed result reports something fails `reported` too.",
         design="6/C06", technique="TLA+ model checked by TLC; exhaustive transition replay; TLC trace judge"),
     "C07": dict(
         text="spec/MosLife.tla: TLC checks Completed <=> a roDelete was merged (history variable), terminality as an action property and the "
@@ -57,8 +58,8 @@ CLAIMED = {
         text="Behaviours of MosLife (two live running orders, message objects kept alive and re-merged) replayed on real objects: after "
              "every step every message object must serialise as at parse time, a re-merged object must give a result allowed by "
              "Merge for its ORIGINAL content, and each object's pre-state must equal its previous post-state (no change outside "
-             "its own steps); no Element object may be reachable from two live trees (MosAlias!NoSharedNodes observed on the real heap, "
-             "clause msg_unshared).",
+             "its own steps); no Element object and no attribute dictionary may be reachable from two live trees (MosAlias!NoSharedNodes observed "
+             "on the real heap, clause msg_unshared); a fifth of the merges go through the documented msg.merge(ro) instead of `+`.",
         design="6/C13", technique="TLA+ history model; behaviour replay on live objects with aliasing observations; TLC trace judge (continuity)"),
     "C14": dict(
         text="Envelope invariants are TLC invariants of MosLife; on the code every visited state of every replayed behaviour is "
